@@ -7,6 +7,7 @@ import (
 	"sort"
 	"strings"
 	"sync"
+	"time"
 
 	ucfg "github.com/elastic/go-ucfg"
 	"github.com/elastic/go-ucfg/diff"
@@ -346,7 +347,7 @@ func c11Sched(bound, maxExec int, triples bool) *core.Space {
 				c, o, _ := c11Configs[s.cfg].Build()
 				solo[k] = guarded(func() string { return c11Reads[r].Do(c, o) })
 			}
-			ex := &sched.Explorer{Bound: bound, MaxExec: maxExec}
+			ex := &sched.Explorer{Bound: bound, MaxExec: maxExec, MaxTime: 75 * time.Second}
 			var viol *core.Violation
 			var results []string
 			var before string
